@@ -40,7 +40,7 @@ class PublicOb(EvalArm):
 
     def setup(self, ctx, prog, e, st, runner):
         ev = self.ev
-        entry = prog.find_fn(r'^eval_%s$' % ev)
+        entry = prog.entry(ev, 'public')
         chars = tuple(self.char_terms())
         leaves = [c for c in self.chars if isinstance(c, CharLeaf)] + [self.ph]
         ob = self
